@@ -221,6 +221,75 @@ def deferred_history(rec, rng, mode, n_ops, storage_class='PickleStorage'):
     return desc
 
 
+def subcache_tree(rec, rng):
+    """nested sub-caches are isolated from each other and from their parents, for every storage class: names are reused across
+    levels (a sub-cache named like its parent, like a sibling of its parent, like a data key one level up), values differ everywhere,
+    everything is read back from every node at the end"""
+    from tenpy.tools.cache import CacheFile
+    import numpy as np
+    for sc in ['Storage', 'PickleStorage', 'Hdf5Storage']:
+        for thr in ([False] if sc == 'Storage' else [False, True]):
+            steps = []
+
+            def body():
+                c = CacheFile.open(storage_class=sc, use_threading=thr)
+                models = {}
+                nodes = {}
+                counter = [0]
+
+                def put(path, key):
+                    counter[0] += 1
+                    steps.append(('set', path, key, counter[0]))
+                    nodes[path][key] = np.array([counter[0]])
+                    models[path][key] = counter[0]
+
+                def sub(path, name):
+                    steps.append(('create_subcache', path, name))
+                    nodes[path + (name,)] = nodes[path].create_subcache(name)
+                    models[path + (name,)] = {}
+                with c:
+                    nodes[()] = c
+                    models[()] = {}
+                    put((), 'x')
+                    put((), 'k')
+                    sub((), 'a')
+                    sub((), 'b')
+                    put(('a',), 'x')
+                    sub(('a',), 'a')            # named like its parent
+                    sub(('a',), 'b')            # named like a sibling of its parent
+                    sub(('a',), 'k2')
+                    put(('a', 'a'), 'x')
+                    put(('a', 'b'), 'y')
+                    put(('b',), 'y')
+                    put((), 'k2')               # a data key of the root named like a sub-cache two levels down
+                    put(('a', 'k2'), 'z')
+                    sub(('a', 'a'), 'a')
+                    put(('a', 'a', 'a'), 'x')
+                    order = list(models)
+                    rng.shuffle(order)
+                    for path in order:
+                        for key in ('x', 'y', 'z', 'k', 'k2'):
+                            exp = models[path].get(key)
+                            try:
+                                got = int(nodes[path][key][0])
+                            except KeyError:
+                                got = None
+                            if got != exp:
+                                return f'sub-cache {"/".join(path) or "<root>"}: key {key!r} reads {got}, written {exp}'
+                        if len(nodes[path]) != len(models[path]) if hasattr(nodes[path], '__len__') else False:
+                            return f'sub-cache {"/".join(path) or "<root>"}: {len(nodes[path])} keys, written {len(models[path])}'
+                return None
+            st, val = _run_with_deadline(body)
+            rec.case(('subcache-tree', sc, thr))
+            desc = {'storage': sc, 'threaded': thr, 'steps': steps}
+            if st == 'hang':
+                rec.violation(f'cache[{sc},thr={thr}]:subcache-tree:hang', 'did not finish', desc)
+            elif st == 'exc':
+                rec.violation(f'cache[{sc},thr={thr}]:subcache-tree:exception:{type(val).__name__}', repr(val), desc)
+            elif val:
+                rec.violation(f'cache[{sc},thr={thr}]:subcache-tree:not-isolated', val, desc)
+
+
 def closing(rec):
     """closing is clean: everything raises afterwards, double close raises ValueError, no hang."""
     from tenpy.tools.cache import CacheFile
@@ -398,6 +467,7 @@ def run(rec):
             rec.case(('deferred', mode, repr(d['history'])), 'preload' in ops and 'set' in ops and any(o.startswith('get') for o in ops),
                      sample=d if i == 0 and mode == 'lazy' else None)
     closing(rec)
+    subcache_tree(rec, rng)
     failing_worker(rec)
     dead_worker_with_queued_task(rec)
     for i in range(60 if quick else 2000):
